@@ -668,7 +668,103 @@ def rule_com_variations(ctx):
                 n, floor=12, samples=samples)
 
 
+def rule_unit_quaternions(ctx):
+    """R20.9: every value returned by the rotation constructors that branch on their input is a unit quaternion. Unit-ness is
+    a typestate computed in source order: a vector is UNIT after reb_vec3d_normalize or as a literal basis vector; a
+    quaternion is UNIT when it is (A.x, A.y, A.z, 0) for a UNIT vector A, the reduced from-to quaternion of two UNIT
+    vectors (identity |a x h|^2 + (a.h)^2 = |a|^2 |h|^2, R20.4), or a product of UNIT quaternions (norm-multiplicativity,
+    R20.4). A cross product of a unit vector with a basis vector has length sqrt(1 - a_k^2), not 1."""
+    tu = cfront.load_tu('rotations.c')
+    n = 0
+    samples = []
+    for fname in ('reb_rotation_init_from_to',):
+        fn = tu.func(fname)
+        unit = set()
+
+        def is_unit_vec(e):
+            e = strip(e, casts=True)
+            if e.get('kind') == 'DeclRefExpr':
+                return e['referencedDecl']['name'] in unit
+            if e.get('kind') == 'CallExpr' and callee_name(e) == 'reb_vec3d_normalize':
+                return True
+            return False
+
+        def is_unit_quat(e):
+            e = strip(e, casts=True)
+            if e.get('kind') == 'DeclRefExpr':
+                return e['referencedDecl']['name'] in unit
+            if e.get('kind') == 'CallExpr':
+                f = callee_name(e)
+                args = call_args(e)
+                if f == 'reb_rotation_init_from_to_reduced':
+                    return all(is_unit_vec(a) for a in args)
+                if f == 'reb_rotation_mul':
+                    return all(is_unit_quat(a) for a in args)
+                if f in ('reb_rotation_normalize', 'reb_rotation_identity'):
+                    return True
+            return False
+
+        def literal_components(d):
+            """{member: rendered initialiser} of `struct T v = {.a = .., ...}` (designated or positional)"""
+            out = {}
+            for il in walk(d):
+                if il.get('kind') == 'InitListExpr':
+                    vals = [render(x).replace(' ', '') for x in il.get('inner', [])]
+                    out = vals
+                    break
+            return out
+        for node in walk(cfront.body(fn)):
+            k = node.get('kind')
+            if k == 'VarDecl' and 'init' in node:
+                ty = qtype(node)
+                vals = literal_components(node)
+                init = [c for c in node.get('inner', []) if c.get('kind') not in ('FullComment',)]
+                if 'reb_vec3d' in ty:
+                    if vals:
+                        nums = []
+                        try:
+                            nums = [float(v.strip('()')) for v in vals]
+                        except ValueError:
+                            nums = []
+                        if len(nums) == 3 and sorted(abs(x) for x in nums) == [0.0, 0.0, 1.0]:
+                            unit.add(node['name'])
+                        else:
+                            unit.discard(node['name'])
+                    elif init and is_unit_vec(init[-1]):
+                        unit.add(node['name'])
+                    else:
+                        unit.discard(node['name'])
+                elif 'reb_rotation' in ty:
+                    ok = False
+                    if vals and len(vals) == 4:
+                        m = [re.match(r'^\(?(\w+)\.([xyz])\)?$', v) for v in vals[:3]]
+                        if all(m) and len({x.group(1) for x in m}) == 1 and [x.group(2) for x in m] == ['x', 'y', 'z'] and m[0].group(1) in unit:
+                            try:
+                                ok = float(vals[3].strip('()')) == 0.0
+                            except ValueError:
+                                ok = False
+                    elif init and not vals:
+                        ok = is_unit_quat(init[-1])
+                    (unit.add if ok else unit.discard)(node['name'])
+            elif is_assign(node) and node['opcode'] == '=' and strip(node['inner'][0]).get('kind') == 'DeclRefExpr':
+                nm = strip(node['inner'][0])['referencedDecl']['name']
+                ty = qtype(strip(node['inner'][0]))
+                if 'reb_vec3d' in ty:
+                    (unit.add if is_unit_vec(node['inner'][1]) else unit.discard)(nm)
+                elif 'reb_rotation' in ty:
+                    (unit.add if is_unit_quat(node['inner'][1]) else unit.discard)(nm)
+            elif k == 'ReturnStmt' and node.get('inner'):
+                n += 1
+                if not is_unit_quat(node['inner'][0]):
+                    ctx.report('R20.9', '%s:return:%s' % (fname, render(node['inner'][0])[:30]), 'src/rotations.c:%s %s' % (line_of(node), fname),
+                               'the quaternion returned here (%s) is not known to have unit norm: it is built from a vector that was not normalised (the cross product of a unit vector with a basis vector has length sqrt(1 - a_k^2)); applying it rescales vectors' % render(node['inner'][0])[:60])
+                else:
+                    samples.append('src/rotations.c:%s returns a unit quaternion' % line_of(node))
+    ctx.covered('R20.9', 'returns of the branching rotation constructors are unit quaternions (unit typestate: normalize, basis literals, reduced from-to of unit vectors, products)', n, floor=4, samples=samples[:5])
+
+
 def run(ctx):
+    rule_unit_quaternions(ctx)
     rule_com_variations(ctx)
     rule_unit_dimensions(ctx)
     rule_unit_tables(ctx)
